@@ -207,8 +207,62 @@ def LEMMAS():
     ]
 
 
-UNITS = [TimeReparam(), LogisticWithSources(), LogisticNoSources(), LinearWithSources(), SharedSpeedWithSources(), Metrics(), MetricLinear(), MetricShared()]
-CALLEES = []
+class SetItemProbe(Spec):
+    target = "leaspy.variables.state:State.__setitem__"
+
+    def bind(self, it, args, kwargs):
+        return dict(args=args)
+
+    def havoc(self, cx, st):
+        cx.ghost.setdefault("sets", []).append(st["args"])
+
+
+class TimepointsUnmasked(Spec):
+    """_put_data_timepoints(state, timepoints): a plain tensor of requested ages is stored as 't' with NO weights -- every requested
+    age counts, whatever its value (zero and negative ages included) -- and entry by entry unchanged; a weighted tensor is stored
+    as it is; anything else is a TypeError."""
+    target = "leaspy.models.mcmc_saem_compatible:McmcSaemCompatibleModel._put_data_timepoints"
+
+    def configs(self):
+        return [dict(kind="tensor"), dict(kind="weighted"), dict(kind="list")]
+
+    def setup(self, cx, cfg):
+        from leaspy.models.logistic import LogisticModel
+        from leaspy.variables.state import State
+        from leaspy.utils.weighted_tensor import WeightedTensor
+        m = SymObj(LogisticModel, {}, label="model")
+        state = SymObj(State, {}, label="state")
+        tp = STensor.sym(cx, "ages", (z3.Int("n_i"), z3.Int("n_t")), "real")
+        arg = tp if cfg["kind"] == "tensor" else (SymObj(WeightedTensor, dict(value=tp, weight=STensor.sym(cx, "w", (z3.Int("n_i"), z3.Int("n_t")), "bool")))
+                                                  if cfg["kind"] == "weighted" else [70.0, 71.0])
+        return dict(args=(m, state, arg), state=state, tp=tp, arg=arg)
+
+    def raises(self, cx, st):
+        return [(TypeError, z3.BoolVal(st["cfg"]["kind"] == "list"))]
+
+    def post(self, cx, st, out):
+        sets = cx.ghost.get("sets", [])
+        ok = len(sets) == 1 and sets[0][0] is st["state"] and sets[0][1] == "t"
+        res = [("exactly one assignment: state['t']", z3.BoolVal(ok))]
+        if not ok:
+            return res
+        v = sets[0][2]
+        if st["cfg"]["kind"] == "weighted":
+            res.append(("a weighted tensor is stored as it is", z3.BoolVal(v is st["arg"])))
+            return res
+        good = isinstance(v, SymObj) and v.cls.__name__ == "WeightedTensor" and isinstance(v.f.get("value"), STensor)
+        res.append(("stored as a weighted tensor", z3.BoolVal(good)))
+        if good:
+            res.append(("without weights: every requested age counts", z3.BoolVal(v.f.get("weight") is None)))
+            t, val = st["tp"], v.f["value"]
+            idx = t.fresh_idx(cx, "a")
+            res.append(("ages unchanged entry by entry", z3.ForAll(list(idx), z3.Implies(t.in_range(idx), val.fn(idx) == t.fn(idx))) if val.ndim == t.ndim else z3.BoolVal(False)))
+        return res
+
+
+UNITS = [TimeReparam(), LogisticWithSources(), LogisticNoSources(), LinearWithSources(), SharedSpeedWithSources(), Metrics(), MetricLinear(), MetricShared(),
+         TimepointsUnmasked()]
+CALLEES = [SetItemProbe()]
 ASSUMPTIONS = ["sigmoid, exp, log uninterpreted with the facts listed in LEMMAS (axiom table)",
                "alpha = exp(xi), v0 = exp(log_v0), g = exp(log_g) are positive (DAG definitions Exp(...))"]
 NOT_DECIDED = ["BaseModel.estimate re-indexing through pandas (bounded stand-in)"]
